@@ -723,6 +723,11 @@ func judgeRouteCaseFlame(w *core.W, c *routeCase, prop string) {
 	nf := false
 	build := func(acc []accRoute) (*flamego.Flame, bool) {
 		f := flamego.NewWithLogger(io.Discard)
+		if len(c.Routes)%3 == 1 {
+			// built-in middleware in front (request logger, renderer): what the route's handler sees is the same
+			f.Use(flamego.Logger(), flamego.Renderer())
+			w.Count("flame-instances-with-built-in-middleware-in-front")
+		}
 		f.NotFound(func() { nf = true })
 		for _, a := range acc {
 			if _, pan := flameRegister(f, a.method, a.txt, a.idx, &hit, &seen); pan != nil {
